@@ -34,6 +34,7 @@ func NowNs() int64                         { return 0 }
 func At(t int64, f func())                 {}
 func FreezeClock()                         {}
 func FreezeTimers()                        {}
+func SetClockNs(ns int64)                  {}
 func SleptNs() int64                       { return 0 }
 func TimeOf(ns int64) time.Time            { return time.Time{} }
 func ReplayMain(fns map[string]func())     {}
